@@ -694,7 +694,7 @@ class CtorPatSpec:
             s.add(z3.Implies(self.fl[j] != 0, self.fl[j + 1] != 0))
         s.add(z3.ULE(self.npos, k))
         for p in self.pl:
-            s.add(z3.UGE(p, 1), z3.ULE(p, 2))
+            s.add(z3.UGE(p, 1), z3.ULE(p, 3))          # 3 = a label no field has (a typo): the pattern is an error, every sub-pattern must still be typed
         for i in range(k):
             for j in range(i + 1, k):
                 s.add(z3.Implies(z3.ULE(self.npos, i), self.pl[i] != self.pl[j]))
@@ -711,19 +711,20 @@ class CtorPatSpec:
         m, k = self.m, self.k
         self.flabels = [it.choose([(self.fl[j] == x, x) for x in range(3)]) for j in range(m)]
         npos = it.choose([(self.npos == x, x) for x in range(k + 1)])
-        plabels = [None] * npos + [it.choose([(self.pl[i] == x, x) for x in (1, 2)]) for i in range(npos, k)]
+        plabels = [None] * npos + [it.choose([(self.pl[i] == x, x) for x in (1, 2, 3)]) for i in range(npos, k)]
         # validity (Gleam): a labelled sub-pattern names a field that exists and is not among the first npos fields; not more positionals than fields
-        if npos > m:
-            raise Pruned()
+        PL = LABELS + ['c']
+        valid = npos <= m
         target = list(range(npos))
         for i in range(npos, k):
             js = [j for j, l in enumerate(self.flabels) if l == plabels[i]]
             if not js or js[0] < npos:
-                raise Pruned()
-            target.append(js[0])
+                valid = False; target.append(None)
+            else:
+                target.append(js[0])
         P = lambda variant, fields: Agg('enum', 'def::module::Pattern', variant, fields)
         pats = [P('Variable', [scopes.smol(StrV('v%d' % i))]) for i in range(k)]
-        lab = lambda l: none() if l is None else some(scopes.smol(StrV(LABELS[l])))
+        lab = lambda l: none() if l is None else some(scopes.smol(StrV(PL[l])))
         pats.append(P('VariantRef', [scopes.smol(StrV('C')), none(), VecV([tup(lab(plabels[i]), scopes.idx(i)) for i in range(k)])]))
         bodyv = Agg('struct', 'Body', None, [scopes.ArenaV(pats), scopes.ArenaV([]), VecV([]), none(), scopes.idx(0)])
         # table: variable j < m is field j (each its own unknown), m is the constructed type, m + 1 the expected type
@@ -734,22 +735,24 @@ class CtorPatSpec:
         it.run_body(body(r'^ty::infer::<impl at [^>]*>::infer_pattern$'), [RefV([ctx], 0), scopes.idx(k), tyvar(m + 1)])
         p2t = bctx.fields[pi].m
         shown = 'type T { C(%s) }  ..  C(%s)' % (', '.join(('%s: ' % LABELS[l] if l else '') + 'F%d' % j for j, l in enumerate(self.flabels)),
-                                                  ', '.join(('%s: ' % LABELS[l] if l else '') + 'v%d' % i for i, l in enumerate(plabels)))
+                                                  ', '.join(('%s: ' % PL[l] if l else '') + 'v%d' % i for i, l in enumerate(plabels)))
         bad = []
         for i in range(k):
             if i not in p2t:
                 bad.append('C10: after inferring the pattern `%s` the sub-pattern v%d has no type entry' % (shown, i)); continue
+            if not valid:
+                continue
             r = uf_find(it, cell, p2t[i].fields[0].v)
             same = [j for j in range(m) if uf_find(it, cell, j) == r]
             if same != [target[i]]:
                 bad.append('C09: in `%s` the sub-pattern v%d must get the type of field F%d; it is unified with the field(s) %s' % (shown, i, target[i], ['F%d' % j for j in same]))
-        rec = {'cls': 'bound:%dpos+%dlab' % (npos, k - npos), 'ok': True, 'sample': {'pattern': shown}}
+        rec = {'cls': ('bound:%dpos+%dlab' if valid else 'ill-formed:%dpos+%dlab') % (npos, k - npos), 'ok': True, 'sample': {'pattern': shown}}
         if bad:
             tys = ['Int', 'String', 'Float']
             decl = 'type T { C(%s) }' % ', '.join(('%s: ' % LABELS[l] if l else '') + tys[j] for j, l in enumerate(self.flabels))
-            pat = 'C(%s)' % ', '.join(('%s: ' % LABELS[l] if l else '') + 'v%d' % i for i, l in enumerate(plabels))
+            pat = 'C(%s)' % ', '.join(('%s: ' % PL[l] if l else '') + 'v%d' % i for i, l in enumerate(plabels))
             prog = '%s\nfn f(t: T) { case t { %s -> #(%s) } }\n' % (decl, pat, ', '.join('v%d' % i for i in range(k)))
-            rec.update({'cls': 'violation', 'ok': False, 'why': bad[:3], 'cex': {'pattern': shown, 'program': prog, 'expect': {('v%d' % i): tys[target[i]] for i in range(k)}}})
+            rec.update({'cls': 'violation', 'ok': False, 'why': bad[:3], 'cex': {'pattern': shown, 'program': prog, 'expect': {('v%d' % i): (tys[target[i]] if valid and target[i] is not None else None) for i in range(k)}}})
         return rec
 
     def on_panic(self, it, e):
